@@ -163,6 +163,9 @@ func ForallKeys16(m interface{}, p func(k [16]byte) bool) bool {
 // already produced key k. Only meaningful to the generator (loop invariants); natively false.
 func Seen16(m interface{}, k [16]byte) bool { return false }
 
+// ReaderPos is the number of bytes the reader has consumed.
+func ReaderPos(r *bytes.Reader) int { return int(r.Size()) - r.Len() }
+
 // Exists reports whether p holds for some k in [lo, hi).
 func Exists(lo, hi int, p func(k int) bool) bool {
 	for k := lo; k < hi; k++ {
